@@ -73,6 +73,14 @@ pub fn gen_case(t: &mut Tape) -> Case {
                 let ty = g.pub_field_ty(n_types);
                 fields.push((format!("f_{}", f), ty));
             }
+            // sibling cases sharing their leading fields: one is then built from a value of the other by a spread
+            if c > 0 && g.t.chance(1, 4) {
+                let prev: &GCase = &cases[c - 1];
+                if !prev.fields.is_empty() {
+                    let keep = 1 + g.t.pick(prev.fields.len());
+                    fields = prev.fields[..keep].to_vec();
+                }
+            }
             cases.push(GCase { name: format!("Case{}", c), fields });
         }
         g.prog.types.push(GType { name: "Wide".into(), record: false, cases });
@@ -90,6 +98,9 @@ pub fn check_case(tape: &[u16], rc: &mut RCase) -> Result<(), Failure> {
     let cfg = Cfg { mainnet: case.mainnet, ..Cfg::default() };
     let ev = evaluate(&case, &cfg);
     let rendered = || case_json(&case, &print_plain(&case.prog));
+    for f in case.features.iter().filter(|f| f.contains("spread")) {
+        rc.label(&format!("feature:{}", f));
+    }
     let key = hash64(&(ev.source.as_str(), format!("{:?}", case.args)));
     let x = match &ev.expected {
         Ok(x) => x,
